@@ -503,6 +503,16 @@ theorem page_range_iter_yields_runs' (p : CPage) (hp : CPageOk p) :
   simp only [PAGE_BITS]
   omega
 
+/-- any fuel above the page size gives the same result -/
+theorem pcollect_fuel (p : CPage) (hp : CPageOk p) (fuel : Nat) (h : 513 ≤ fuel) :
+    PRangeIter.collect fuel p.iterRanges = runsOfList (pageMembers p.abs.bits) := by
+  unfold CPage.iterRanges
+  rw [pcollect_spec _ _ hp, remP_zero]
+  rw [remP_zero]
+  have := popCount_le p.abs.bits
+  unfold popCount at this
+  omega
+
 /-! ### (B) the view of a concrete set and the remaining members of a `BitSetRangeIter` -/
 
 /-- `membersAll` of a `(major, page)` list -/
@@ -976,6 +986,16 @@ theorem range_iter_yields_abstract_ranges' (s : CBitSet) (hs : CInv s) :
   omega
 
 end SetLevel
+
+/-- any fuel above the number of mapped bits gives the same result -/
+theorem scollect_fuel (s : CBitSet) (hs : CInv s) (fuel : Nat) (h : 512 * s.pageMap.length + 1 ≤ fuel) :
+    SRangeIter.collect fuel (SRangeIter.new s) = s.abs.ranges := by
+  unfold BitSet.ranges
+  rw [abs_membersAll, scollect_spec hs _ _ (sinv_new hs), remS_new hs]
+  rw [remS_new hs]
+  have := viewMembers_length_le (cview s.pageMap s.pages)
+  have hlen : s.pageMap.length = (cview s.pageMap s.pages).length := by simp [cview]
+  omega
 
 /-! ### (C) `BitPage::iter` / `BitSet::iter` -/
 
